@@ -14,6 +14,7 @@ import (
 	"strings"
 	"sync"
 	"time"
+	"unsafe"
 )
 
 // MaxTasks bounds the number of tasks of one execution (vector clock width).
@@ -182,6 +183,7 @@ type Sched struct {
 	err        error
 	preempts   int
 	Finalizers int
+	addrSt     map[unsafe.Pointer]*Stamp
 }
 
 // S is the scheduler of the execution currently in progress (nil outside one).
